@@ -555,9 +555,12 @@ def _run_check(prop_id: str, tier: str, batch_seed: int, jobs: int, n_runs: int 
 
     try:
         det = determinism_selftest(prop_id, batch_seed, cfg.get("det_n", 100), jobs, opts)
-        if det["mismatches"]:
-            print(f"HARNESS-ERROR: nondeterministic runs for seeds {det['mismatches']}")
-            return EXIT_HARNESS
+        nondeterministic = bool(det["mismatches"])
+        if nondeterministic:
+            # Either the simulator has a leak, or the code under test carries state from one run to the next inside
+            # a process (a cache mutated in place, a module-level default).  The batch still runs: a violation that
+            # replays in a fresh process is reported as such; without one the check ends as a harness error.
+            print(f"HARNESS-ERROR: nondeterministic runs for seeds {det['mismatches']} (same seed, different event log)")
         total = run_batch(prop_id, batch_seed, n_runs, jobs, wall_cap, opts)
     except HarnessError as e:
         print(f"HARNESS-ERROR: {e}")
@@ -573,43 +576,57 @@ def _run_check(prop_id: str, tier: str, batch_seed: int, jobs: int, n_runs: int 
         if c:
             print(f"KNOWN-FINDING: property={prop_id} {e['id']}: {e['what']} (seen in {c} runs)")
 
-    # Unknown failures: group by signature class, shrink one representative each, replay fresh, report.
+    # Unknown failures: group by signature class; pick a representative that reproduces on its own in a fresh
+    # process (a failure can also be the echo of state left behind by an earlier run of the same worker), shrink it,
+    # replay the minimised plan fresh, report.
     violations = []
-    groups: dict[str, dict] = {}
+    groups: dict[str, list] = {}
     for u in total["unknown"]:
         if u["plan"] is None:
             continue
-        groups.setdefault(sig_class(u["failure"]), u)
+        groups.setdefault(sig_class(u["failure"]), [])
+        if len(groups[sig_class(u["failure"])]) < 6:
+            groups[sig_class(u["failure"])].append(u)
+    harness_failed = None
     if groups:
-        ctx_mp = multiprocessing.get_context("fork")
-        with ProcessPoolExecutor(max_workers=min(jobs, len(groups)), mp_context=ctx_mp, initializer=_worker_init) as pool:
-            futs = {
-                cls: pool.submit(_shrink_task, prop_id, u["plan"], u["failure"], cfg.get("shrink_s", 45))
-                for cls, u in list(groups.items())[:6]
-            }
-            for cls, fut in futs.items():
-                u = groups[cls]
-                try:
-                    best, best_fail, execs = fut.result(timeout=cfg.get("shrink_s", 45) * 3 + 60)
-                except Exception as e:  # noqa: BLE001
-                    print(f"HARNESS-ERROR: shrinking failed: {e!r}")
-                    best, best_fail, execs = u["plan"], u["failure"], 0
-                ctx = None
-                try:
-                    ctx = run_plan(prop, best, keep_log=True) if prop.REPLAY_IN_PARENT else None
-                except BaseException:  # noqa: BLE001
-                    ctx = None
-                path = write_replay(prop_id, u["seed"], best, best_fail, u["plan"], ctx.events if ctx else None)
+        chosen = {}
+        for cls, cands in list(groups.items())[:6]:
+            for u in cands:
+                path = write_replay(prop_id, u["seed"], u["plan"], u["failure"], u["plan"], None)
                 ok, out = replay_in_fresh_process(prop_id, path)
-                if not ok:
-                    # try the unshrunk plan before giving up
-                    path = write_replay(prop_id, u["seed"], u["plan"], u["failure"], u["plan"], None)
+                if ok:
+                    chosen[cls] = u
+                    break
+            else:
+                harness_failed = (cands[0], out)
+        ctx_mp = multiprocessing.get_context("fork")
+        if chosen:
+            with ProcessPoolExecutor(max_workers=min(jobs, len(chosen)), mp_context=ctx_mp, initializer=_worker_init) as pool:
+                futs = {cls: pool.submit(_shrink_task, prop_id, u["plan"], u["failure"], cfg.get("shrink_s", 45)) for cls, u in chosen.items()}
+                for cls, fut in futs.items():
+                    u = chosen[cls]
+                    try:
+                        best, best_fail, execs = fut.result(timeout=cfg.get("shrink_s", 45) * 3 + 60)
+                    except Exception as e:  # noqa: BLE001
+                        print(f"shrinking failed ({e!r}); reporting the unshrunk plan")
+                        best, best_fail, execs = u["plan"], u["failure"], 0
+                    ctx = None
+                    try:
+                        ctx = run_plan(prop, best, keep_log=True) if prop.REPLAY_IN_PARENT else None
+                    except BaseException:  # noqa: BLE001
+                        ctx = None
+                    path = write_replay(prop_id, u["seed"], best, best_fail, u["plan"], ctx.events if ctx else None)
                     ok, out = replay_in_fresh_process(prop_id, path)
-                if not ok:
-                    print(f"HARNESS-ERROR: failure {u['failure']['sig']} (seed {u['seed']}) did not replay in a fresh process")
-                    print(out)
-                    return EXIT_HARNESS
-                violations.append((path, best_fail, execs))
+                    if not ok:
+                        # the minimised plan does not stand on its own: fall back to the unshrunk one (which does)
+                        path = write_replay(prop_id, u["seed"], u["plan"], u["failure"], u["plan"], None)
+                        best_fail, execs = u["failure"], 0
+                    violations.append((path, best_fail, execs))
+    if harness_failed is not None and not violations:
+        u, out = harness_failed
+        print(f"HARNESS-ERROR: failure {u['failure']['sig']} (seed {u['seed']}) did not replay in a fresh process")
+        print(out)
+        return EXIT_HARNESS
     for path, f, execs in violations:
         print(f"violation: {f['sig']}\n  {f['msg']}\n  (minimised with {execs} executions)")
         print(f"VIOLATION property={prop_id} replay={path}")
@@ -622,7 +639,9 @@ def _run_check(prop_id: str, tier: str, batch_seed: int, jobs: int, n_runs: int 
         f"faults fired {sum(total['faults'].values())}, known-finding hits {sum(total['known'].values())}, "
         f"violations {len(violations)}, wall {wall:.1f}s" + (" [wall cap reached]" if total["capped"] else "")
     )
-    return EXIT_VIOLATION if violations else EXIT_OK
+    if violations:
+        return EXIT_VIOLATION
+    return EXIT_HARNESS if nondeterministic else EXIT_OK
 
 
 def write_evidence(prop, tier, batch_seed, total, det, wall, n_viol, known_entries, n_planned):
